@@ -70,6 +70,9 @@ func runTerm(a *args, res *result) {
 		}
 		r := newRng(a.seed, uint64(i)*8+1)
 		fam := i % 5
+		if a.prop == "C06" {
+			fam = 3 // only the re-entrancy family: callbacks run outside internal locks and may call back in
+		}
 		fp := newFP()
 		fp.add(uint64(fam), uint64(i))
 		cw0 := vshim.ReadCounters()
@@ -237,10 +240,10 @@ func reentrancyCase(r rng, res *result, idx int64) {
 		}
 		vshim.SetPerturb(r.between(0, 2), vshim.NKinds)
 	}
-	nkeys := pick(r, []int{6, 40, 90, 300})
+	nkeys := pick(r, []int{6, 40, 90, 300, 900})
 	if r.chance(0.5) {
 		// ---- maps: Range visitor re-enters
-		sp := mapSpec{Flavor: pick(r, mapFlavors[:4]), Hint: noHint, NKeys: 1024}
+		sp := mapSpec{Flavor: pick(r, mapFlavors[:4]), Hint: noHint, NKeys: 2048}
 		if sp.Flavor != "Map" && r.chance(0.5) {
 			sp.Hasher = pick(r, hasherModes)
 		}
@@ -374,7 +377,7 @@ func reentrancyCase(r rng, res *result, idx int64) {
 		case 9:
 			c.Items()
 		case 10:
-			if r.intn(5) == 0 {
+			if r.intn(5) == 0 && nkeys < 300 { // large cases keep their entries for one big sweep
 				c.Clear()
 			}
 		case 11:
@@ -390,7 +393,7 @@ func reentrancyCase(r rng, res *result, idx int64) {
 		}
 		vshim.Progress()
 	}
-	sp := cacheSpec{Flavor: pick(r, cacheFlavors), Ctor: "New", OptMask: 1 | 2 | 4, DefExp: time.Hour, Interval: 0, NKeys: 1024}
+	sp := cacheSpec{Flavor: pick(r, cacheFlavors), Ctor: "New", OptMask: 1 | 2 | 4, DefExp: time.Hour, Interval: 0, NKeys: 2048}
 	sp.Callback = func(k int, v any) {
 		cbCalls++
 		if !concurrent {
@@ -403,7 +406,11 @@ func reentrancyCase(r rng, res *result, idx int64) {
 	c = newCache(sp)
 	logCase("term round %d re-entrant cache visitor/callback: %s keys=%d concurrent=%v polling=%v", idx, sp.Flavor, nkeys, concurrent, polling)
 	for k := 0; k < nkeys; k++ {
-		c.Set(k, nextVal(k), pick(r, []time.Duration{5, 20, time.Hour, cache.NoExpiration}))
+		ttls := []time.Duration{5, 20, time.Hour, cache.NoExpiration}
+		if nkeys >= 300 {
+			ttls = []time.Duration{5, 20, 30, 40, 50, 60, 70, time.Hour} // large sweeps: most entries expire together
+		}
+		c.Set(k, nextVal(k), pick(r, ttls))
 	}
 	vshim.SetVNow(epoch + 10)
 	vshim.ResetLive()
